@@ -170,13 +170,12 @@ R.update({
     "C16-seed7": ("C16", "C16 quick (confine_quick through the real apply_stub_using_libcst glue)", "after strengthening", "the harness used to call the libcst codemod itself; it now runs MonkeyType's own apply function (libcst untraced) incl. a stub that adds no import"),
 })
 
-# round 6 (third session): eight properties, 24 delivered, 13 repeats of earlier changes (all caught or, for the getrandbits one, answered exit 2), 11 kept
+# round 6 (third session): eight properties, 24 delivered, 13 repeats of earlier changes (all caught or, for the getrandbits one, answered exit 2), 11 kept, one of them (C03-seed11) dropped when the defect it aggravated was repaired
 R.update({
     "C01-seed11": ("C01", "C01 quick (c01_realrun: gen_raising)", "at once", "yield types folded into the trace only when the generator finishes by returning"),
     "C02-seed12": ("C02", "C02 quick (sessions)", "after strengthening", "module-level code->function memo shared by all tracers, negative answers included: needs TWO tracing sessions in one process; harness added"),
     "C03-seed9": ("C03", "C03 quick (context)", "at once", "tracing context left by a BaseException-only path"),
     "C03-seed10": ("C03", "C03 quick (hookfree: Journal.__eq__ at a nested-container position)", "at once", "`obj in enclosing_containers` runs __eq__ of the program's objects"),
-    "C03-seed11": ("C03", "C03 quick (rng: no sample rate, yet random.randrange is called)", "after strengthening", "first flagged for the wrong reason (an attribute comparison in the context harness, since relaxed); the rng harness watches the process-wide generator"),
     "C09-seed12": ("C09", "C09 quick (atomic: a retried batch commits part of it)", "at once", ""),
     "C12-seed10": ("C12", "C12 quick (sigrender_quick: '*' twice)", "at once", ""),
     "C14-seed10": ("C14", "C14 quick (runs)", "after strengthening", "a cached import map mutated for a default-None parameter: the stub of the same rows gains `from typing import Optional` after ANOTHER generation in the process; harness added"),
